@@ -36,9 +36,13 @@ def mk_chunk(arr, start, end, run_id="r", data_type="x", data_kind="x", **kw):
                        dtype=arr.dtype, run_id=run_id, **kw)
 
 
+TAGS = []  # facts observed while running the current case, appended to violation messages
+
+
 def check(cond, clause, detail=""):
     if not cond:
-        raise Violation(clause, detail if isinstance(detail, str) else repr(detail))
+        raise Violation(clause, "".join(f"[{t}]" for t in sorted(set(TAGS)))
+                        + (detail if isinstance(detail, str) else repr(detail)))
 
 
 # ------------------------------------------------------------------------------------------------
@@ -395,9 +399,13 @@ def run_rechunk(d):
     return dict(nt=changed or len(chunks) >= 3, classes=classes)
 
 
-@signature("F1_rechunker_argmin")
-def _sig_f1(sub, desc, bucket, message):
-    return "argmin of an empty sequence" in message
+@signature("F16_split_of_unaligned_superrun_chunk")
+def _sig_f16(sub, desc, bucket, message):
+    """Chunk.split leaves `subruns` untouched when the superrun chunk does not start/end on a subrun border:
+    the pieces then carry spans outside their own range and later concatenation rejects them."""
+    return (sub == "superrun" and "[split-of-superrun-chunk-not-aligned-with-its-subrun-spans]" in message
+            and (bucket in ("clause:superrun.rechunk_span_outside", "clause:superrun.rechunk_spans_not_partition")
+                 or (bucket == "clause:superrun.rechunker_raised:ValueError" and "was split into chunks" in message)))
 
 
 # ------------------------------------------------------------------------------------------------
@@ -552,12 +560,24 @@ def run_superrun(d):
         c.target_size_mb = tgt
     R = strax.Rechunker(rechunk=True, run_id="_s")
     out = []
+    orig_split = strax.Chunk.split
+
+    def spy_split(self, t, allow_early_split=False):
+        if self.is_superrun and not self.promised_continuity:
+            TAGS.append("split-of-superrun-chunk-not-aligned-with-its-subrun-spans")
+        return orig_split(self, t, allow_early_split=allow_early_split)
+
+    del TAGS[:]
+    strax.Chunk.split = spy_split
     try:
         for c in C:
             out += R.receive(c)
         out += R.flush()
     except Exception as e:
-        raise Violation("superrun.rechunker_raised:" + type(e).__name__, f"{e!r} {d}") from e
+        raise Violation("superrun.rechunker_raised:" + type(e).__name__,
+                        "".join(f"[{t}]" for t in sorted(set(TAGS))) + f"{e!r} {d}") from e
+    finally:
+        strax.Chunk.split = orig_split
     allr = np.concatenate([o.data for o in out]) if out else ref[:0]
     check(gen.arrays_equal(allr, ref), "superrun.rechunk_rows", d)
     check(out[0].start == C[0].start and out[-1].end == C[-1].end, "superrun.rechunk_range", d)
@@ -574,6 +594,9 @@ def run_superrun(d):
               "superrun.rechunk_spans_not_partition", (d, k, pieces, (s, e)))
     if [o.end for o in out] != [c.end for c in C]:
         classes.append("rechunk_changed")
+    if TAGS:
+        classes.append("split_of_unaligned_superrun_chunk")
+    del TAGS[:]
     return dict(nt=nruns >= 2 and len(A) > nruns, classes=sorted(set(classes)))
 
 
